@@ -31,6 +31,17 @@ static struct ulock ulock_make(struct vx_mutex *m)
   l.owns = true;
   return l;
 }
+/* std::unique_lock<M> l(m, std::try_to_lock): may fail (the lock is held by another agent); nothing is acquired then */
+static struct ulock ulock_try(struct vx_mutex *m)
+{
+  struct ulock l;
+  bool vx_nd_try = nondet_bool();
+  l.m = m;
+  l.owns = false;
+  if (!m->held && vx_nd_try) { mon_acquire(m); l.owns = true; }
+  return l;
+}
+static bool ulock_owns(struct ulock *l) { return l->owns; }
 /* ~unique_lock */
 static void ulock_dtor(struct ulock *l)
 {
